@@ -282,6 +282,11 @@ def finish(mod, pid, args, seed, repo, shards, results, t_start, warm_s):
         if len(nontrivial) < need:
             inconclusive.append(f"only {len(nontrivial)} distinct non-trivial cases "
                                 f"(minimum {need})")
+        if hasattr(mod, "post_check"):
+            try:
+                inconclusive.extend(mod.post_check(counters) or [])
+            except Exception as e:  # pragma: no cover
+                inconclusive.append(f"post_check failed: {e!r}")
         if evaluations > 0 and blocked * 2 > evaluations:
             inconclusive.append(f"{blocked} of {evaluations} cases blocked by another "
                                 f"property's failure")
